@@ -361,6 +361,18 @@ def scenario_vbrace_comment(exe, workroot):
     return False, 'added braces stay out of // comments'
 
 
+def scenario_raw_string_delimiter(exe, workroot):
+    """C03: a raw string literal whose content holds a look-alike of its closing delimiter keeps every byte"""
+    d = _tmp(workroot)
+    cfg = _cfg(d, 'sp_arith = force\n')
+    lit = b'R"ab( p )ac" ( x  -  y )ab"'
+    src = b'const char *s = ' + lit + b'; // "\nint z = 1  +  2;\n'
+    rc, out, err = run(exe, ['-c', cfg, '-l', 'CPP', '-q'], stdin=src)
+    if rc == 0 and lit not in out:
+        return True, 'the raw string literal %r was changed: %r' % (lit, out.split(b'\n')[0])
+    return False, 'raw string literal unchanged'
+
+
 def scenario_lang_leak(exe, workroot):
     d = _tmp(workroot)
     a, b = os.path.join(d, 'A.c'), os.path.join(d, 'B.c')
